@@ -727,10 +727,12 @@ def _len_lazy(ex, args, f, _prev=I["Vec::len"]):
 class ScriptSink:
     """io::Write target: accepts K bytes per write call (0 = all), fails for good at call number fail_at (symbolic), one Interrupted at intr_at"""
 
-    def __init__(self, k, fail_at, intr_at):
+    def __init__(self, k, fail_at, intr_at, zero_at=None):
         self.k = k
         self.fail_at = fail_at
         self.intr_at = intr_at
+        self.zero_at = zero_at          # from this call on the sink is full: write() answers Ok(0) (a fixed-size buffer, a full device)
+        self.full = False
         self.data = []
         self.calls = 0
         self.failed = False
@@ -739,6 +741,9 @@ class ScriptSink:
         if not data:
             return ok(usize(0))
         self.calls += 1
+        if self.zero_at is not None and (self.full or ex.decide(self.zero_at == self.calls)):
+            self.full = True
+            return ok(usize(0))
         if self.failed or ex.decide(self.fail_at == self.calls):
             self.failed = True
             return err(Opaque("io::Error(Other)"))
@@ -757,6 +762,8 @@ class ScriptSink:
                 if "Interrupted" in r.fields[0].tag:
                     continue
                 return r
+            if r.fields[0].conc() == 0:
+                return err(Opaque("io::Error(WriteZero)"))       # std: "failed to write whole buffer"
             off += r.fields[0].conc()
         return ok()
 
